@@ -155,9 +155,12 @@ func GetParameterSets(sample []byte) (sps [][]byte, pps [][]byte) {
 	sampleLength := uint32(len(sample))
 	var pos uint32 = 0
 naluLoop:
-	for pos < sampleLength {
+	for uint64(pos)+4 < uint64(sampleLength) {
 		naluLength := binary.BigEndian.Uint32(sample[pos : pos+4])
 		pos += 4
+		if uint64(pos)+uint64(naluLength) > uint64(sampleLength) {
+			break // bad length field
+		}
 		naluHdr := sample[pos]
 		switch naluType := GetNaluType(naluHdr); {
 		case naluType == NALU_SPS:
